@@ -41,7 +41,7 @@ DESIGN_REF = 'DESIGN.md section 5, C12'
 LEVEL_TEXT = ('Machine-checked (Coq): the concrete model of TheoryData (sparse id-indexed stacks of tagged 64-bit words / pointers, frame triple, heap '
               'ledger with allocation kinds) refines a plain table for every operation and every history; the ledger invariant (live cells = exactly '
               'the stored items, each owned once) holds after every operation including refused ones and the ledger is empty after reset; accept() '
-              'overloads visit exactly the stored referenced items (current mode: the new ones); the tagged word returns every 32-bit number. The model is tied to the '
+              'overloads visit exactly the stored referenced items (current mode: the new ones), the recursive printing visitor is sound, terminating and complete for the reference closure; the tagged word returns every 32-bit number. The model is tied to the '
               'code by differential correspondence (sanitizer build, counting operator new/delete) and an independent shadow-table oracle.')
 LEVEL_NOTE = ('Trusted: Coq kernel/vm_compute, extraction+driver (sample cross-checked), harness, translator; allocator and realloc growth modelled; '
               'heap addresses are fresh and never reused in the model.')
